@@ -183,3 +183,86 @@ func ZZ_C13_ensure_route() {
 	changed, err2 := EnsureRoute(context.Background(), exp)
 	zz.Assert(err2 == nil && !changed, "ensuring again changes nothing")
 }
+
+// C13 (idempotent ensure-style application), addresses: after EnsureAddr the
+// link carries exactly one global-unicast address of the wanted family and it
+// is the wanted one - whatever was there before: nothing, the same address
+// (second setup), the address of a previous holder of the link, or both.  The
+// link-local address and the address of the other family stay.
+// zz:noreplay the kernel's address list is replaced through engine-side overrides
+func ZZ_C13_ensure_addr() {
+	v6 := zz.Bool("ipv6")
+	mk := func(last byte, v6 bool) *net.IPNet {
+		if v6 {
+			ip := net.ParseIP("fd00::")
+			ip[15] = last
+			return &net.IPNet{IP: ip, Mask: net.CIDRMask(128, 128)}
+		}
+		return &net.IPNet{IP: net.IP{10, 0, 0, last}, Mask: net.CIDRMask(32, 32)}
+	}
+	wantLast := zz.IntRange("want.last", 1, 200)
+	want := mk(byte(wantLast), v6)
+	otherFamily := mk(7, !v6)
+	linkLocal := &net.IPNet{IP: net.ParseIP("fe80::1"), Mask: net.CIDRMask(64, 128)}
+	var kernel []netlink.Addr
+	kernel = append(kernel, netlink.Addr{IPNet: otherFamily}, netlink.Addr{IPNet: linkLocal})
+	before := zz.Fork("before", 4)
+	if before&1 != 0 { // address of a previous holder of the link
+		staleLast := zz.IntRange("stale.last", 1, 200)
+		zz.Assume(staleLast != wantLast)
+		kernel = append(kernel, netlink.Addr{IPNet: mk(byte(staleLast), v6)})
+	}
+	if before&2 != 0 { // the wanted address is already there
+		kernel = append(kernel, netlink.Addr{IPNet: want})
+	}
+	fam := func(a netlink.Addr) int { return NetlinkFamily(a.IP) }
+	zz.Override("github.com/vishvananda/netlink.AddrList", func(link netlink.Link, family int) ([]netlink.Addr, error) {
+		var out []netlink.Addr
+		for _, a := range kernel {
+			if family == netlink.FAMILY_ALL || fam(a) == family {
+				out = append(out, a)
+			}
+		}
+		return out, nil
+	})
+	zz.Override("github.com/vishvananda/netlink.AddrDel", func(link netlink.Link, addr *netlink.Addr) error {
+		for i := range kernel {
+			if zzSameNet(kernel[i].IPNet, addr.IPNet) {
+				kernel = append(kernel[:i:i], kernel[i+1:]...)
+				return nil
+			}
+		}
+		return nil
+	})
+	zz.Override("github.com/vishvananda/netlink.AddrReplace", func(link netlink.Link, addr *netlink.Addr) error {
+		for i := range kernel {
+			if zzSameNet(kernel[i].IPNet, addr.IPNet) {
+				kernel[i] = *addr
+				return nil
+			}
+		}
+		kernel = append(kernel, *addr)
+		return nil
+	})
+	link := &netlink.Dummy{LinkAttrs: netlink.LinkAttrs{Name: "eth0", Index: 2}}
+	changed, err := EnsureAddr(context.Background(), link, &netlink.Addr{IPNet: want})
+	zz.Assert(err == nil, "ensuring the address succeeds")
+	zz.Assert(changed == (before != 2), "a change is reported exactly when the link did not already carry just the wanted address")
+	nWant, nOther, nLL := 0, 0, 0
+	for _, a := range kernel {
+		switch {
+		case zzSameNet(a.IPNet, otherFamily):
+			nOther++
+		case zzSameNet(a.IPNet, linkLocal):
+			nLL++
+		default:
+			zz.Assert(zzSameNet(a.IPNet, want), "no other global address of the family stays on the link (the address of a previous holder is removed)")
+			nWant++
+		}
+	}
+	zz.Assert(nWant == 1, "exactly one address of the wanted family, the wanted one")
+	zz.Assert(nOther == 1 && nLL == 1, "the other family's address and the link-local address are untouched")
+	n := len(kernel)
+	changed2, err2 := EnsureAddr(context.Background(), link, &netlink.Addr{IPNet: want})
+	zz.Assert(err2 == nil && !changed2 && len(kernel) == n, "ensuring again changes nothing")
+}
